@@ -175,7 +175,11 @@ class StepRig:
                 try:
                     if watchdog:
                         old = signal.signal(signal.SIGALRM, _on_alarm)
-                        _watch['t0'], _watch['s0'] = time.monotonic(), _sched()
+                        now = time.monotonic()
+                        if _watch['s0'] is None or now - _watch['t0'] > 0.25:
+                            # (a snapshot at most a quarter of a second old is baseline enough for thresholds of 5-6 s and
+                            # keeps /proc reads off the per-iteration path)
+                            _watch['t0'], _watch['s0'] = now, _sched()
                         signal.setitimer(signal.ITIMER_REAL, STALL_LIMIT_S)
                     try:
                         self.loop.run_until_complete(self.ex._run_once())
